@@ -8,18 +8,18 @@ import (
 )
 
 type zzImpl struct {
-	which          int // which overload ran
-	calls          int
-	a, b           int32
-	name           string
-	ret32          int32
-	retStr         string
-	ret64          int64
-	levels         []int32
+	which  int // which overload ran
+	calls  int
+	a, b   int32
+	name   string
+	ret32  int32
+	retStr string
+	ret64  int64
+	levels []int32
 }
 
 func (z *zzImpl) Activate(activation bus.Activation, helper OverloadsSignalHelper) error { return nil }
-func (z *zzImpl) OnTerminate()                                                            {}
+func (z *zzImpl) OnTerminate()                                                           {}
 func (z *zzImpl) Add(a int32) (int32, error) {
 	z.calls++
 	z.which, z.a = 0, a
